@@ -10,6 +10,7 @@ BARE = [G + "BareGitStore._import_one", G + "BareGitStore.delete_one", G + "Bare
 TREE = [G + "TreeGitStore._import_one", G + "TreeGitStore.delete_one", G + "TreeGitStore._get_etag", G + "TreeGitStore.get_ctag"]
 TR = ["xandikos.icalendar.apply_time_range_vevent", "xandikos.icalendar.apply_time_range_vtodo",
       "xandikos.icalendar.apply_time_range_vjournal"]
+TR_FB = "xandikos.icalendar.apply_time_range_vfreebusy"
 
 PROPS = {
     "C01": {
@@ -162,7 +163,9 @@ _FILTER_BOUND = ("CALDAV:filter grammar: VCALENDAR > {VEVENT, VTODO, VJOURNAL} >
                  "(is-not-)defined, prop-filter on 5 properties x {empty, is-not-defined, text-match (plain / negated / i;octet), "
                  "3 time-ranges, param-filter (is-not-)defined / text-match}} x 6 calendar objects (1026 cases), parsed by "
                  "caldav.parse_filter and evaluated by CalendarFilter.check on real icalendar objects")
-PROPS["C11"]["functions"] += ["xandikos.icalendar.as_tz_aware_ts"] + _FILTER_FNS
+PROPS["C11"]["functions"] += ["xandikos.icalendar.as_tz_aware_ts", TR_FB] + _FILTER_FNS
+PROPS["C11"]["replay"][TR_FB] = FILTERS
+PROPS["C11"]["standins"][TR_FB] = {"driver": FILTERS, "bound": _FILTER_BOUND}
 for _f in _FILTER_FNS:
     PROPS["C11"]["replay"][_f] = FILTERS
     PROPS["C11"]["standins"][_f] = {"driver": FILTERS, "bound": _FILTER_BOUND}
@@ -175,7 +178,7 @@ PROPS["C11"]["explanation"] = (
     "RFC 4791 9.9 time-range tables (VEVENT, VTODO, VJOURNAL), how DATE / floating / zoned values are placed on the time line, "
     "and comp-filter / prop-filter / param-filter / text-match evaluation are discharged function by function against the RFC; "
     "the XML-to-filter parser and the report driver are covered by a bounded explorer only; text-match implements equality "
-    "instead of substring (known finding); VFREEBUSY time-range and multi-instance properties are outside the contracts.")
+    "instead of substring (known finding); multi-instance properties and VALARM time-ranges are outside the contracts.")
 PROPS["C11"]["replay"]["xandikos.icalendar.as_tz_aware_ts"] = PURE
 PROPS["C11"]["standins"]["xandikos.icalendar.as_tz_aware_ts"] = {"driver": PURE, "bound": "6 date / floating / zoned values x 4 default zones"}
 INDEX_EXPLORE = "index_explore.py"
